@@ -1,5 +1,6 @@
 import Proofs.Supply
 import Proofs.Events
+import Proofs.Moves
 /-
   C04 — Supply conservation: value is created or destroyed only by protocol events.
 -/
@@ -185,6 +186,74 @@ theorem spr_rewards_create_exactly (P : Params) (oh ts : Int) (ws : List SprW) (
       (fun _ s' => ∀ a x, s'.bal a x = s.bal a x + (if x = tPEG then sprCredit a ws else 0)) :=
   sprRewards_exact P oh ts ws s
 
+/-! ### every kind of executed transaction, every event that creates value -/
+
+/-- **An executed batch, for every address and asset.** If `recordBatch` records a batch (that is,
+    the batch executes), then the balance of EVERY address in EVERY asset changes by exactly the sum,
+    over the batch's transactions, of: minus the input (for the input address and asset), plus the
+    transfer outputs naming the address (burn-address outputs excepted), plus the converted amount
+    `⌊in·src/dst⌋` for an ordinary conversion (a bank-era PEG request is paid by the bank pass).
+    Nothing else moves: no third address, no other asset, no rounding gain. -/
+theorem executed_batch_moves_exactly (P : Params) (h : Nat) (hash : Hash) (rates avgs : Option TMap) (txs : List Tx)
+    (s s' : DB) (hok : AddrsOK s) (hr : recordBatch P h hash rates avgs txs s = .ok () s') :
+    ∀ a x, s'.bal a x = s.bal a x + batchDelta P h rates avgs txs a x :=
+  (recordBatch_exact P h hash rates avgs txs s s' hok hr).2
+
+/-- an ordinary conversion, spelled out: the input address loses the input in the source asset and
+    gains `out = ⌊in·src/dst⌋` in the destination asset; nobody else is touched -/
+theorem conversion_moves_value_exactly (P : Params) (h : Nat) (rates avgs : Option TMap) (t : Tx) (a : Addr) (x : Ticker)
+    (hcv : t.isConversion P = true) (hnp : ¬ (h ≥ P.act.convLimit ∧ t.isPEGRequest = true)) (out : Int)
+    (hconv : convert P.act.pip10 h (toInt64 t.inAmount) ((rates.getD []).get t.inType) ((avgs.getD []).get t.inType)
+        ((rates.getD []).get t.conversion) ((avgs.getD []).get t.conversion) = some out) :
+    txDelta P h rates avgs t a x =
+      (if a = t.inAddr ∧ x = t.conversion then out else 0) - (if a = t.inAddr ∧ x = t.inType then (t.inAmount : Int) else 0) := by
+  unfold txDelta outDelta
+  rw [if_neg hnp, if_pos hcv, hconv]
+
+/-- **The bank pass creates exactly the yields it decides and refunds exactly the rest.** -/
+theorem bank_pass_moves_exactly (P : Params) (h : Nat) (rates avgs : TMap) (batches : List TxEntry)
+    (bank : Nat) (bh : Int) (s : DB) :
+    Outcome (recordPegRequests P h rates avgs batches bank bh s)
+      (fun _ s' => ∀ a x, s'.bal a x = s.bal a x +
+        (((pegRequests P h rates avgs batches).zip
+            (payouts bank ((pegRequests P h rates avgs batches).map fun r => (r.key, r.requested)))).map
+          (fun rp => pegDelta P h rates rp.1 rp.2.2 a x)).sum) :=
+  recordPegRequests_exact P h rates avgs batches bank bh s
+
+/-- **FCT burns create exactly the burned amounts**, in pFCT, for the burning addresses -/
+theorem burns_create_exactly (P : Params) (h : Nat) (burnRCD : Addr) (fcts : List FctTx) (s : DB) :
+    Outcome (applyFactoidBlock P h burnRCD fcts s)
+      (fun _ s' => ∀ a x, s'.bal a x = s.bal a x + (fcts.map (fun f => burnDelta burnRCD f a x)).sum) :=
+  applyFactoidBlock_exact P h burnRCD fcts s
+
+/-- **Developer rewards create exactly the tabled shares**, in PEG -/
+theorem developer_rewards_create_exactly (P : Params) (h : Nat) (ts : Int) (s : DB) :
+    Outcome (developersPayouts P h ts s)
+      (fun _ s' => ∀ a x, s'.bal a x = s.bal a x +
+        (P.devs.map (fun d => if a = d.1 ∧ x = tPEG then ((devReward P h d : Nat) : Int) else 0)).sum) :=
+  developersPayouts_exact P h ts s
+
+/-- **The mint creates exactly the tabled amounts**, for the mint address only -/
+theorem mint_creates_exactly (P : Params) (s : DB) :
+    Outcome (mintTokens P s)
+      (fun _ s' => ∀ a x, s'.bal a x = s.bal a x +
+        (P.mint.map (fun p => if a = P.mintAddr ∧ x = p.1 then ((p.2 * 100000000 : Nat) : Int) else 0)).sum) :=
+  mintTokens_exact P s
+
+/-- non-vacuity: a two-transaction batch (a transfer with change, then a conversion) evaluated by
+    the kernel against `batchDelta` -/
+def wP : Params :=
+  { act := ⟨0,0,0,0,0,0,0,0,0,0,100,100,200,200,300,310,400⟩, tickerMax := 63, tickerNames := ["PEG", "pUSD", "pEUR"], oneWaySet := [],
+    snapshotRate := 144, perBlockHolders := 0, perBlockDevs := 0, bankBase := 0, avgPeriod := 8, avgRequired := 4,
+    syncVersion := 2, devs := [], «mint» := [], burnAddr := "b", oldBurnAddr := "o", mintAddr := "m", coinbaseAddr := "c", zeroAddr := "0" }
+def wTxs : List Tx :=
+  [{ inAddr := "alice", inType := 2, inAmount := 100, transfers := [⟨"bob", 70⟩, ⟨"alice", 30⟩], conversion := 0 },
+   { inAddr := "alice", inType := 2, inAmount := 50, transfers := [], conversion := 3 }]
+example :
+    (batchDelta wP 5 (some [(2, 200), (3, 100)]) none wTxs "alice" 2, batchDelta wP 5 (some [(2, 200), (3, 100)]) none wTxs "alice" 3,
+     batchDelta wP 5 (some [(2, 200), (3, 100)]) none wTxs "bob" 2) = (-120, 100, 70) := by
+  decide
+
 end Pegnet.C04
 
 #print axioms Pegnet.C04.credit_transfers_supply
@@ -195,3 +264,9 @@ end Pegnet.C04
 #print axioms Pegnet.C04.transfer_leaves_bystanders_alone
 #print axioms Pegnet.C04.opr_rewards_create_exactly
 #print axioms Pegnet.C04.spr_rewards_create_exactly
+#print axioms Pegnet.C04.executed_batch_moves_exactly
+#print axioms Pegnet.C04.conversion_moves_value_exactly
+#print axioms Pegnet.C04.bank_pass_moves_exactly
+#print axioms Pegnet.C04.burns_create_exactly
+#print axioms Pegnet.C04.developer_rewards_create_exactly
+#print axioms Pegnet.C04.mint_creates_exactly
